@@ -156,11 +156,16 @@ def documents(draw: Any, kind: str = 'function', fmt_family: str = 'markup', max
             fields.append({'tag': tag, 'arg': None, 'words': c.words(2), 'type': None})
         if draw(st.integers(0, 4)) == 0:
             fields.append({'tag': 'unknown', 'arg': None, 'words': c.words(2), 'type': None, 'name': 'customtag'})
+    # google / numpy: a "See Also" section; the description of an entry is prose and may contain colons
+    seealso: List[Dict[str, Any]] = []
+    if fmt_family == 'sections' and draw(st.integers(0, 2)) == 0:
+        for nm in draw(st.lists(st.sampled_from(['Engine', 'Engine.start']), min_size=1, max_size=2, unique=True)):
+            seealso.append({'name': nm, 'words': c.words(draw(st.integers(2, 4))), 'colon': draw(st.sampled_from([0, 0, 1, 2]))})
     # the field that gives the type may be written before the field that gives the description
     for x in fields:
         if x.get('type') and fmt_family == 'markup' and draw(st.integers(0, 2)) == 0:
             x['type_first'] = True
-    return {'blocks': blocks, 'fields': fields, 'kind': kind}
+    return {'blocks': blocks, 'fields': fields, 'kind': kind, 'seealso': seealso}
 
 
 # ------------------------------------------------------------------ expected visible content
@@ -291,7 +296,29 @@ def _lit_lines(lit: Dict[str, Any], body_indent: int) -> List[str]:
     return out
 
 
+def seealso_text(e: Dict[str, Any]) -> str:
+    w = list(e['words'])
+    for k in range(e.get('colon', 0)):
+        w[min(k, len(w) - 2)] += ':'     # "slower variant: kept for compatibility", "ratio is 3: 1"
+    return ' '.join(w)
+
+
+def seealso_tokens(doc: Dict[str, Any]) -> List[str]:
+    return [t for e in doc.get('seealso') or [] for t in e['words']]
+
+
 def serialise(doc: Dict[str, Any], fmt: str) -> str:
+    text = _serialise(doc, fmt)
+    if fmt in ('google', 'numpy') and doc.get('seealso'):
+        if fmt == 'numpy':
+            extra = ['See Also', '--------'] + ['%s : %s' % (e['name'], seealso_text(e)) for e in doc['seealso']]
+        else:
+            extra = ['See Also:'] + ['    %s: %s' % (e['name'], seealso_text(e)) for e in doc['seealso']]
+        text = text + '\n\n' + '\n'.join(extra)
+    return text
+
+
+def _serialise(doc: Dict[str, Any], fmt: str) -> str:
     if fmt == 'plaintext':
         return '\n'.join(_blocks(doc['blocks'], 'restructuredtext', 0))
     base = 'epytext' if fmt == 'epytext' else 'restructuredtext'
